@@ -324,3 +324,100 @@ fn c03_builder_dec_hex_labels() {
     kani::cover!(r.is_ok() && !hex && v >= 100, "three-digit label");
     kani::cover!(r.is_err(), "rejected");
 }
+
+// ------------------------------------------------ presentation round trip
+use core::fmt::Write as _;
+use domain::base::name::Label;
+
+fn label_text_roundtrip<const N: usize, const S: usize>() {
+    let buf: [u8; N] = kani::any();
+    let n: usize = kani::any();
+    kani::assume(n >= 1 && n <= N);
+    let label = Label::from_slice(&buf[..n]).unwrap();
+    let mut sink = CharSink::<S>::new();
+    write!(sink, "{}", label).unwrap();
+    assert!(!sink.overflow);
+    let mut nb = NameBuilder::<FixedBuf<16>>::new();
+    let r = nb.append_chars(sink.buf[..sink.len].iter().copied());
+    assert!(r.is_ok());
+    let rel = nb.finish();
+    let s = rel.as_slice();
+    // the text of one label reads back as exactly that one label
+    assert!(s.len() == n + 1);
+    assert!(s[0] as usize == n);
+    let mut i = 0;
+    while i < n {
+        assert!(s[1 + i] == buf[i]);
+        i += 1;
+    }
+    kani::cover!(buf[0] == b'.', "label containing a dot");
+    kani::cover!(buf[0] == 0xFF, "label containing a high octet");
+}
+
+// @funcs: <Label as Display>::fmt, NameBuilder::append_chars, push_symbol, Symbols::with, Symbol::from_chars, NameBuilder::finish
+// @bound: every label of exactly 1 fully symbolic octet: Display text fed to the name parser gives back the same single label
+// @outside: labels longer than 2 octets (escaping is per octet with no context other than the preceding backslash)
+#[kani::proof]
+#[kani::unwind(8)]
+fn c03_label_text_roundtrip_1() {
+    label_text_roundtrip::<1, 6>()
+}
+
+// @tier: thorough
+// @timeout: 3000
+// @funcs: <Label as Display>::fmt, NameBuilder::append_chars, Symbol::from_chars
+// @bound: every label of 1..=2 fully symbolic octets
+#[kani::proof]
+#[kani::unwind(12)]
+fn c03_label_text_roundtrip_2() {
+    label_text_roundtrip::<2, 10>()
+}
+
+// ------------------------------------------------ length limit when parsing
+use domain::base::name::{ParsedName, ToLabelIter};
+use octseq::parse::Parser;
+
+// @funcs: ParsedName::parse_ref, LabelType::parse, Parser::{parse_u8,advance,seek}, ParsedName::compose_len/is_compressed
+// @bound: a message of 262 octets: a root label at offset 0, then at offset 1 a name of exactly four labels with symbolic lengths 1..=63 each (arbitrary content) terminated by either a root label or a compression pointer to the root at offset 0: accepted <=> total length (labels + root) <= 255
+// @assume: four labels, terminator in {root, pointer to offset 0}
+// @stub: core::slice::index::slice_index_fail -> panic without formatted message
+// @outside: names with other label counts near the limit; pointer targets other than a root label
+#[kani::proof]
+#[kani::unwind(7)]
+#[kani::stub(core::slice::index::slice_index_fail, crate::stubs::slice_index_fail)]
+fn c03_parsed_name_length_limit() {
+    let mut buf: [u8; 262] = kani::any();
+    buf[0] = 0;
+    let mut pos = 1usize;
+    let mut total = 0usize;
+    let mut i = 0;
+    while i < 4 {
+        let l: usize = kani::any();
+        kani::assume(l >= 1 && l <= 63);
+        buf[pos] = l as u8;
+        pos += l + 1;
+        total += l + 1;
+        i += 1;
+    }
+    let ptr: bool = kani::any();
+    if ptr {
+        buf[pos] = 0xC0;
+        buf[pos + 1] = 0;
+    } else {
+        buf[pos] = 0;
+    }
+    total += 1;
+    let mut p = Parser::from_ref(&buf[..]);
+    p.seek(1).unwrap();
+    match ParsedName::parse_ref(&mut p) {
+        Ok(n) => {
+            assert!(total <= 255);
+            assert!(n.compose_len() as usize == total);
+            assert!(n.is_compressed() == ptr);
+            assert!(p.pos() == pos + if ptr { 2 } else { 1 });
+        }
+        Err(_) => assert!(total > 255),
+    }
+    kani::cover!(total == 255 && ptr, "maximal compressed name");
+    kani::cover!(total == 256, "one octet too long");
+}
